@@ -197,6 +197,7 @@ func c13(c *Ctx) {
 		c.ExpectAll(r.short+"/unlocks-stored-set", c.CallArgs(r.fn, un, 0), pat(loaded+".guardSet"), 1, r.short+": the set unlocked is the one stored with the lock", "")
 		c.Before(r.short+"/clear-before-unlock", r.fn, un, cas, 1, r.short+": the reference is cleared before the write lock is released", "a local writer that gets the write lock while HoldsHaltLock still answers true races a forwarded commit")
 	}
+	c.OnlyGuards("expiry/unconditional-sweep", "litefs.(*Store).EnforceHaltLockExpiration", p.Calls("litefs.(*DB).EnforceHaltLockExpiration"), gs(G(`rangeok\(.*\)`, true), G(`\(.* < builtin\.len\(.*\)\)`, true)), 1, "the sweep visits the databases under no condition other than the iteration itself (in particular not 'only while primary')", "a lock granted before a demotion must still expire: its guards pin the write lock and block role-change recovery for ever")
 	c.OnlyIn("expiry/monitor-calls", p.Calls("litefs.(*Store).EnforceHaltLockExpiration"), []string{pat("litefs.(*Store).monitorHaltLock")}, 1, "Store.EnforceHaltLockExpiration is driven by monitorHaltLock", "")
 	c.Expect("expiry/monitor-ticker", strings.Join(c.CallArgs("litefs.(*Store).monitorHaltLock", p.PlainCalls("time.NewTicker"), 0), ";"), pat("p0.HaltLockMonitorInterval"), "the monitor ticks every HaltLockMonitorInterval", "")
 	{
@@ -325,6 +326,32 @@ func c13(c *Ctx) {
 			}
 			if bad != "" || n == 0 {
 				c.fail(key, "K1", desc, "the stream stays framed only if the whole file is consumed; an unverified duplicate hides divergence", bad, n)
+			} else {
+				c.ok(key, "K1", desc, n)
+			}
+		}
+	}
+	{
+		// the own frame's body is drained to its end marker before the function returns successfully
+		fn := c.F(pf)
+		key := "skip-own/body-drained"
+		desc := "after verification the rest of the duplicate's chunked body (including its end marker) is drained (io.Copy to io.Discard) before the frame is reported as processed"
+		if c.need(key, "K1", desc, fn, pf) {
+			n, bad := 0, ""
+			drain := p.CallWhere("io.Copy", `io\.Discard`)
+			for _, b := range fn.Blocks {
+				for i, sb := range b.Succs {
+					if !p.EdgeAsserts(Edge{b, i}, own) {
+						continue
+					}
+					n++
+					if f := (&Search{P: p, Fn: fn, Avoid: drain, Tgt: p.SuccessReturn}).runFromBlock(sb); f != nil {
+						bad = "success return reachable without draining the body; path " + p.TraceString(f.Trace)
+					}
+				}
+			}
+			if bad != "" || n == 0 {
+				c.fail(key, "K1", desc, "ltx.Decoder.Verify stops after the trailer: the 2-byte end marker stays in the stream and the next frame is parsed two bytes early", bad, n)
 			} else {
 				c.ok(key, "K1", desc, n)
 			}
